@@ -116,6 +116,14 @@ Theorem addressing_agrees_column_index : forall (V : Type) (neg : V -> V) (dflt 
 Proof. exact column_vs_index. Qed.
 Print Assumptions addressing_agrees_column_index.
 
+(** addressing: row-index addressing is exact whatever the row names -- with repeated names too table[i] is the i-th row
+    (its name, its cells); together with the theorem above, index and column addressing never need distinct names *)
+Theorem addressing_index_exact_whatever_the_names : forall (V : Type) (dflt : V) (T : table V) i c j,
+  col_index V T c = Some j ->
+  rd_key V (row_by_index V dflt T i) = nth i (rows V T) (KS []) /\ rd_get V (row_by_index V dflt T i) c = Some (cell V dflt T i j).
+Proof. exact index_exact. Qed.
+Print Assumptions addressing_index_exact_whatever_the_names.
+
 (** addressing: a reversed connection key gives the negated row under the key as asked *)
 Theorem reversed_connection_key_negates : forall (V : Type) (neg : V -> V) (dflt : V) (T : table V) k i,
   allow_rev V T = true -> 1 < key_len k -> is_col V T k = false -> is_row V T k = false ->
